@@ -29,6 +29,10 @@ type meta struct {
 
 	creation int64 // used for the meta process Uptime method only
 	state    int32
+
+	// reason Start returned with: the handler goroutine finishes the termination
+	// with it when Start returned while it was inside a callback
+	reason error
 }
 
 func (m *meta) ID() gen.Alias {
@@ -103,14 +107,7 @@ func (m *meta) start() {
 				pc, fn, line, _ := runtime.Caller(2)
 				m.log.Panic("meta process %s terminated - %#v at %s[%s:%d]", m.id,
 					rcv, runtime.FuncForPC(pc).Name(), fn, line)
-				old := atomic.SwapInt32(&m.state, int32(gen.MetaStateTerminated))
-				if old != int32(gen.MetaStateTerminated) {
-					m.p.node.aliases.Delete(m.id)
-					atomic.StoreInt32(&m.state, int32(gen.MetaStateTerminated))
-					reason := gen.TerminateReasonPanic
-					m.p.node.RouteTerminateAlias(m.id, reason)
-					m.behavior.Terminate(reason)
-				}
+				m.terminatedByStart(gen.TerminateReasonPanic)
 			}
 		}()
 	}
@@ -125,16 +122,36 @@ func (m *meta) start() {
 
 	reason := m.behavior.Start()
 	// meta process terminated
+	if reason == nil {
+		reason = gen.TerminateReasonNormal
+	}
+	m.terminatedByStart(reason)
+}
+
+// terminatedByStart: the Start callback is over (returned or panicked). Whoever moves
+// the state to 'terminated' first terminates the meta process - unless a mailbox
+// handler is inside a callback at that moment: Terminate must not run concurrently
+// with HandleMessage/HandleCall, so the handler goroutine does it when it is done.
+func (m *meta) terminatedByStart(reason error) {
+	m.reason = reason
 	lib.VerifPoint(m, "meta:swapTermStart")
 	old := atomic.SwapInt32(&m.state, int32(gen.MetaStateTerminated))
-	if old != int32(gen.MetaStateTerminated) {
-		m.p.node.aliases.Delete(m.id)
-		if reason == nil {
-			reason = gen.TerminateReasonNormal
-		}
-		m.p.node.RouteTerminateAlias(m.id, reason)
-		m.behavior.Terminate(reason)
+	switch gen.MetaState(old) {
+	case gen.MetaStateTerminated:
+		// terminated by a mailbox handler already
+	case gen.MetaStateRunning:
+		// the handler goroutine finishes the termination (see handle)
+	default:
+		m.terminate(reason)
 	}
+}
+
+// terminate does the termination of a meta process whose state is 'terminated'.
+// It is called once, by the goroutine that got (or was handed) the job
+func (m *meta) terminate(reason error) {
+	m.p.node.aliases.Delete(m.id)
+	m.p.node.RouteTerminateAlias(m.id, reason)
+	m.behavior.Terminate(reason)
 }
 
 func (m *meta) handle() {
@@ -160,13 +177,10 @@ func (m *meta) handle() {
 					m.log.Panic("meta process %s terminated - %#v at %s[%s:%d]", m.id,
 						rcv, runtime.FuncForPC(pc).Name(), fn, line)
 
-					old := atomic.SwapInt32(&m.state, int32(gen.MetaStateTerminated))
-					if old != int32(gen.MetaStateTerminated) {
-						m.p.node.aliases.Delete(m.id)
-						reason = gen.TerminateReasonPanic
-						m.p.node.RouteTerminateAlias(m.id, reason)
-						m.behavior.Terminate(reason)
-					}
+					// this goroutine has been the owner of the 'running' state: nobody
+					// else terminates the meta process (Start, if it is over, left it to us)
+					atomic.StoreInt32(&m.state, int32(gen.MetaStateTerminated))
+					m.terminate(gen.TerminateReasonPanic)
 				}
 			}()
 		}
@@ -250,19 +264,19 @@ func (m *meta) handle() {
 			}
 
 			// terminated
+			// this goroutine is the owner of the 'running' state: if Start is over
+			// meanwhile it has left the termination to us
 			lib.VerifPoint(m, "meta:swapTermHandler")
-			old := atomic.SwapInt32(&m.state, int32(gen.MetaStateTerminated))
-			if old != int32(gen.MetaStateTerminated) {
-				m.p.node.aliases.Delete(m.id)
-				m.p.node.RouteTerminateAlias(m.id, reason)
-				m.behavior.Terminate(reason)
-			}
+			atomic.StoreInt32(&m.state, int32(gen.MetaStateTerminated))
+			m.terminate(reason)
 			return
 		}
 
 		lib.VerifPoint(m, "meta:casSleep")
 		if atomic.CompareAndSwapInt32(&m.state, int32(gen.MetaStateRunning), int32(gen.MetaStateSleep)) == false {
-			// terminated. seems the main loop is stopped. do nothing.
+			// terminated: Start is over and found this goroutine inside a callback,
+			// so the termination is ours to finish
+			m.terminate(m.reason)
 			return
 		}
 
